@@ -197,7 +197,7 @@ package dns
 //@   stored at "rr.SaltLength = " saltlen: len(l.token) < 512 ==> value == len(l.token) / 2 [C05]
 //@ func (*HIP).parse [C05 C07]
 //@   stored at "rr.HitLength = " hitlen: len(rr.Hit) < 512 ==> value == len(rr.Hit) / 2 [C05]
-//@   stored at "rr.PublicKeyLength = " pklen: len(decodedPK) < 65536 ==> value == len(decodedPK) [C05]
+//@   stored at "rr.PublicKeyLength = " pklen: (len(decodedPK) < 65536 ==> value == len(decodedPK)) && same(decodedPK, callres("DecodeString", 0)) [C05]
 // a mandatory list names only keys that exist: an unknown name (which svcbStringToKey maps to the reserved key
 // 65535, printed as the empty string) is an error, not a list entry
 //@ func (*SVCBMandatory).parse [C05 C07]
@@ -218,7 +218,7 @@ package dns
 //@   requires lexinv: (zl.l.value == 1 ==> len(zl.l.token) > 0) && (zl.cachedL != nil ==> (zl.cachedL.value == 1 ==> len(zl.cachedL.token) > 0))
 //@   ensures lexinv: (zl.l.value == 1 ==> len(zl.l.token) > 0) && (zl.cachedL != nil ==> (zl.cachedL.value == 1 ==> len(zl.cachedL.token) > 0))
 //@   ensures tok: ret0.value == 1 ==> len(ret0.token) > 0
-//@ func slurpRemainder [C07]
+//@ func slurpRemainder [C07 C06]
 //@   requires c != nil
 // an error names the offending token and its position
 //@   exit tok: ret0 != nil ==> same(ret0.lex.token, l.token) && ret0.lex.line == l.line && ret0.lex.column == l.column
